@@ -18,7 +18,7 @@ Not decided: interleavings as such; the bit arithmetic of StreamIdSet (allocate 
 """
 from ..inline import inline_view
 from ..mir import AnchorLost
-from ..util import df_of, fn_short, in_set, operand_path, path_last, backward_slice, field_writers, callers_keys, guard_across_yield, switch_on, switch_edges, yields
+from ..util import must_pass, df_of, fn_short, in_set, operand_path, path_last, backward_slice, field_writers, callers_keys, guard_across_yield, switch_on, switch_edges, yields
 
 C = "scylla::network::connection::"
 
@@ -111,7 +111,7 @@ def r3_r4(ctx, facts):
     if not hsites:
         raise AnchorLost("lookup: no HandlerLookupResult::Handler aggregate")
     for bb, s in hsites:
-        ok = any(b.dominates(c.bb, bb) and c.bb != bb or c.bb == bb for c in rrem) and any(b.dominates(hrem[0].bb, c.bb) for c in rrem)
+        ok = bool(rrem) and must_pass(b, facts, [c.bb for c in rrem], bb) and any(must_pass(b, facts, [hrem[0].bb], c.bb) for c in rrem)
         r3.instance("handler-exit-forgets-mapping", ok, "before returning Handler(handler), request_to_stream.remove(&handler.request_id) must run (else a late orphan notice orphans a re-allocated id)", b.stmt_span(s))
     if rrem:
         _, calls, _ = backward_slice(b, rrem[0].args[1])
